@@ -1,2 +1,296 @@
+// akworker — stateful components: ArrayBuilder, JSON reader/writer, AwkwardForth, VirtualArray, partitions.
+#include <cstdio>
+#include <cstring>
+#include <cmath>
+#include <sstream>
+#include <vector>
+#include <set>
+#include <unistd.h>
+
 #include "akworker.h"
-bool other_ops(const std::string& op, const rapidjson::Value& st, Session& S, std::string& out) { return false; }
+#include "awkward/type/Type.h"
+#include "awkward/builder/ArrayBuilder.h"
+#include "awkward/builder/ArrayBuilderOptions.h"
+#include "awkward/io/json.h"
+#include "awkward/forth/ForthMachine.h"
+#include "awkward/forth/ForthInputBuffer.h"
+#include "awkward/forth/ForthOutputBuffer.h"
+#include "awkward/array/NumpyArray.h"
+
+namespace ak = awkward;
+namespace rj = rapidjson;
+typedef rj::Value JV;
+
+static std::string first_line(const std::string& m) {
+  size_t p = m.find('\n');
+  std::string s = p == std::string::npos ? m : m.substr(0, p);
+  size_t q = s.find("(https://");
+  if (q != std::string::npos) s = s.substr(0, q);
+  if (s.size() > 160) s = s.substr(0, 160);
+  return s;
+}
+static std::string excjson(const std::exception& e, const char* cls) {
+  return std::string("{\"ok\":0,\"exc\":\"") + cls + "\",\"msg\":" + jstr(first_line(e.what())) + "}";
+}
+#define CATCH_ALL(outvar) \
+  catch (HarnessError& e) { outvar = "{\"ok\":-1,\"harness\":" + jstr(e.what()) + "}"; } \
+  catch (std::invalid_argument& e) { outvar = excjson(e, "ValueError"); } \
+  catch (std::runtime_error& e) { outvar = excjson(e, "RuntimeError"); } \
+  catch (std::bad_alloc& e) { outvar = "{\"ok\":0,\"exc\":\"MemoryError\",\"msg\":\"bad_alloc\"}"; } \
+  catch (std::exception& e) { outvar = excjson(e, "Exception"); }
+
+static std::string snapjson(const ak::ContentPtr& c) {
+  return c->tojson(false, -1, "nan", "inf", "-inf", "re", "im");
+}
+
+// ------------------------------------------------------------------ ArrayBuilder
+// one command: {"c":"null"|"bool"|"int"|"real"|"str"|"bytes"|"beginlist"|"endlist"|"begintuple"|"index"|"endtuple"|
+//               "beginrecord"|"field"|"endrecord"|"clear"|"snapshot", "x":..., "name":..., "check":0/1}
+static void builder_cmd(ak::ArrayBuilder& b, const JV& c, bool capi) {
+  std::string k = gets(c, "c", "");
+  void* vb = reinterpret_cast<void*>(&b);
+  if (capi) {
+    // the extern "C" surface used by the Numba lowering (returns 1 on failure)
+    uint8_t err = 0;
+    if (k == "null") err = awkward_ArrayBuilder_null(vb);
+    else if (k == "bool") err = awkward_ArrayBuilder_boolean(vb, geti(c, "x", 0) != 0);
+    else if (k == "int") err = awkward_ArrayBuilder_integer(vb, geti(c, "x", 0));
+    else if (k == "real") err = awkward_ArrayBuilder_real(vb, (double)geti(c, "n", 0) / (double)geti(c, "d", 1));
+    else if (k == "str") err = awkward_ArrayBuilder_string(vb, gets(c, "x", "").c_str());
+    else if (k == "bytes") err = awkward_ArrayBuilder_bytestring(vb, gets(c, "x", "").c_str());
+    else if (k == "beginlist") err = awkward_ArrayBuilder_beginlist(vb);
+    else if (k == "endlist") err = awkward_ArrayBuilder_endlist(vb);
+    else if (k == "begintuple") err = awkward_ArrayBuilder_begintuple(vb, geti(c, "n", 0));
+    else if (k == "index") err = awkward_ArrayBuilder_index(vb, geti(c, "i", 0));
+    else if (k == "endtuple") err = awkward_ArrayBuilder_endtuple(vb);
+    else if (k == "beginrecord") {
+      std::string name = gets(c, "name", "");
+      if (name.empty()) err = awkward_ArrayBuilder_beginrecord(vb);
+      else err = awkward_ArrayBuilder_beginrecord_check(vb, name.c_str());
+    }
+    else if (k == "field") err = awkward_ArrayBuilder_field_check(vb, gets(c, "key", "").c_str());
+    else if (k == "endrecord") err = awkward_ArrayBuilder_endrecord(vb);
+    else if (k == "clear") err = awkward_ArrayBuilder_clear(vb);
+    else throw HarnessError("builder command " + k);
+    if (err != 0) throw std::invalid_argument("awkward_ArrayBuilder_* reported failure");
+    return;
+  }
+  if (k == "null") b.null();
+  else if (k == "bool") b.boolean(geti(c, "x", 0) != 0);
+  else if (k == "int") b.integer(geti(c, "x", 0));
+  else if (k == "real") b.real((double)geti(c, "n", 0) / (double)geti(c, "d", 1));
+  else if (k == "str") b.string(gets(c, "x", ""));
+  else if (k == "bytes") b.bytestring(gets(c, "x", ""));
+  else if (k == "beginlist") b.beginlist();
+  else if (k == "endlist") b.endlist();
+  else if (k == "begintuple") b.begintuple(geti(c, "n", 0));
+  else if (k == "index") b.index(geti(c, "i", 0));
+  else if (k == "endtuple") b.endtuple();
+  else if (k == "beginrecord") {
+    std::string name = gets(c, "name", "");
+    if (name.empty()) b.beginrecord(); else b.beginrecord_check(name);
+  }
+  else if (k == "field") b.field_check(gets(c, "key", ""));
+  else if (k == "endrecord") b.endrecord();
+  else if (k == "clear") b.clear();
+  else throw HarnessError("builder command " + k);
+}
+
+static std::string builder_run(const JV& st) {
+  int64_t initial = geti(st, "initial", 1024);
+  double resize = (double)geti(st, "resize_num", 3) / (double)geti(st, "resize_den", 2);
+  bool capi = geti(st, "capi", 0) != 0;
+  ak::ArrayBuilder b(ak::ArrayBuilderOptions(initial, resize));
+  std::vector<ak::ContentPtr> snaps;
+  std::vector<std::string> snaptext;
+  std::string out = "{\"ok\":1,\"steps\":[";
+  bool first = true;
+  for (auto& c : need(st, "cmds").GetArray()) {
+    std::string r;
+    try {
+      if (gets(c, "c", "") != "snapshot") builder_cmd(b, c, capi);
+      ak::ContentPtr s = b.snapshot();
+      std::string js = snapjson(s);
+      snaps.push_back(s); snaptext.push_back(js);
+      r = "{\"ok\":1,\"len\":" + std::to_string((long long)b.length()) + ",\"json\":" + jstr(js)
+        + ",\"type\":" + jstr(s->type(ak::util::TypeStrs())->tostring())
+        + ",\"valid\":" + jstr(first_line(s->validityerror("layout"))) + "}";
+    }
+    CATCH_ALL(r)
+    out += (first ? "" : ",") + r; first = false;
+    if (r.compare(0, 7, "{\"ok\":1") != 0) break;       // the builder's state after an error is unspecified
+  }
+  out += "],\"immutable\":";
+  bool same = true; std::string diff;
+  for (size_t i = 0; i < snaps.size(); i++) {
+    std::string again;
+    try { again = snapjson(snaps[i]); } catch (std::exception& e) { again = std::string("EXC ") + e.what(); }
+    if (again != snaptext[i]) { same = false; diff = "snapshot " + std::to_string(i) + " was " + snaptext[i] + " now " + again; break; }
+  }
+  out += same ? "1" : "0";
+  if (!same) out += ",\"diff\":" + jstr(diff);
+  return out + "}";
+}
+
+// ------------------------------------------------------------------ JSON
+static std::string json_parse(const JV& st, Session& S) {
+  std::string text = gets(st, "text", "");
+  int64_t initial = geti(st, "initial", 1024);
+  bool markers = geti(st, "markers", 1) != 0;
+  const char* nan_s = markers ? "nan" : nullptr;
+  const char* inf_s = markers ? "inf" : nullptr;
+  const char* minf_s = markers ? "-inf" : nullptr;
+  ak::ContentPtr c;
+  if (geti(st, "file", 0) != 0) {
+    FILE* f = tmpfile();
+    if (f == nullptr) throw HarnessError("tmpfile failed");
+    fwrite(text.data(), 1, text.size(), f);
+    rewind(f);
+    try { c = ak::FromJsonFile(f, ak::ArrayBuilderOptions(initial, 1.5), geti(st, "buffersize", 65536), nan_s, inf_s, minf_s); }
+    catch (...) { fclose(f); throw; }
+    fclose(f);
+  }
+  else {
+    c = ak::FromJsonString(text.c_str(), ak::ArrayBuilderOptions(initial, 1.5), nan_s, inf_s, minf_s);
+  }
+  std::string dst = gets(st, "dst", "");
+  if (!dst.empty()) S.regs[dst] = c;
+  return "{" + project(c, st) + "}";
+}
+
+static std::string json_write(const JV& st, Session& S) {
+  ak::ContentPtr c = S.get(gets(st, "src", ""));
+  bool pretty = geti(st, "pretty", 0) != 0;
+  int64_t maxdecimals = geti(st, "maxdecimals", -1);
+  bool markers = geti(st, "markers", 1) != 0;
+  const char* nan_s = markers ? "NaN!" : nullptr;
+  const char* inf_s = markers ? "Inf!" : nullptr;
+  const char* minf_s = markers ? "-Inf!" : nullptr;
+  std::string text;
+  if (geti(st, "file", 0) != 0) {
+    FILE* f = tmpfile();
+    if (f == nullptr) throw HarnessError("tmpfile failed");
+    try { c->tojson(f, pretty, maxdecimals, geti(st, "buffersize", 65536), nan_s, inf_s, minf_s, "re", "im"); }
+    catch (...) { fclose(f); throw; }
+    fflush(f);
+    long n = ftell(f);
+    rewind(f);
+    text.resize((size_t)n);
+    if (n > 0 && fread(&text[0], 1, (size_t)n, f) != (size_t)n) { fclose(f); throw HarnessError("short read"); }
+    fclose(f);
+  }
+  else {
+    text = c->tojson(pretty, maxdecimals, nan_s, inf_s, minf_s, "re", "im");
+  }
+  return "{\"ok\":1,\"text\":" + jstr(text) + "}";
+}
+
+// ------------------------------------------------------------------ AwkwardForth
+template <typename T, typename I>
+static std::string forth_state(ak::ForthMachineOf<T, I>& vm, const std::vector<std::string>& innames) {
+  std::string out = "\"stack\":[";
+  std::vector<T> st = vm.stack();
+  for (size_t i = 0; i < st.size(); i++) out += (i ? "," : "") + std::to_string((long long)st[i]);
+  out += "],\"vars\":{";
+  std::map<std::string, T> vars = vm.variables();
+  bool first = true;
+  for (auto& kv : vars) { out += (first ? "" : ","); first = false; out += jstr(kv.first) + ":" + std::to_string((long long)kv.second); }
+  out += "},\"outs\":{";
+  first = true;
+  if (vm.is_ready()) {
+    std::map<std::string, std::shared_ptr<ak::ForthOutputBuffer>> outs = vm.outputs();
+    for (auto& kv : outs) {
+      out += (first ? "" : ","); first = false;
+      ak::ContentPtr arr = vm.output_NumpyArray_at(kv.first);
+      out += jstr(kv.first) + ":" + jstr(arr->tojson(false, -1, "nan", "inf", "-inf", "re", "im"));
+    }
+  }
+  out += "},\"inpos\":{";
+  first = true;
+  if (vm.is_ready()) {
+    for (auto& n : innames) { out += (first ? "" : ","); first = false; out += jstr(n) + ":" + std::to_string((long long)vm.input_position_at(n)); }
+  }
+  out += "},\"ready\":" + std::string(vm.is_ready() ? "1" : "0");
+  out += ",\"done\":" + std::string(vm.is_ready() && vm.is_done() ? "1" : "0");
+  return out;
+}
+static const char* fortherr(ak::util::ForthError e) {
+  using ak::util::ForthError;
+  switch (e) {
+    case ForthError::none: return "none"; case ForthError::not_ready: return "not_ready";
+    case ForthError::is_done: return "is_done"; case ForthError::user_halt: return "user_halt";
+    case ForthError::recursion_depth_exceeded: return "recursion_depth_exceeded";
+    case ForthError::stack_underflow: return "stack_underflow"; case ForthError::stack_overflow: return "stack_overflow";
+    case ForthError::read_beyond: return "read_beyond"; case ForthError::seek_beyond: return "seek_beyond";
+    case ForthError::skip_beyond: return "skip_beyond"; case ForthError::rewind_beyond: return "rewind_beyond";
+    case ForthError::division_by_zero: return "division_by_zero"; case ForthError::varint_too_big: return "varint_too_big";
+    default: return "other";
+  }
+}
+template <typename T, typename I>
+static std::string forth_run_T(const JV& st) {
+  std::string source = gets(st, "source", "");
+  std::string result = "{\"ok\":1";
+  std::shared_ptr<ak::ForthMachineOf<T, I>> vm;
+  try {
+    vm = std::make_shared<ak::ForthMachineOf<T, I>>(source, geti(st, "stack_max", 1024), geti(st, "recursion_max", 1024),
+                                                    geti(st, "out_initial", 1024),
+                                                    (double)geti(st, "out_resize_num", 3) / (double)geti(st, "out_resize_den", 2));
+  }
+  catch (std::invalid_argument& e) { return "{\"ok\":0,\"exc\":\"ValueError\",\"phase\":\"compile\",\"msg\":" + jstr(first_line(e.what())) + "}"; }
+  catch (std::exception& e) { return "{\"ok\":0,\"exc\":\"Exception\",\"phase\":\"compile\",\"msg\":" + jstr(first_line(e.what())) + "}"; }
+  // inputs: {"name": [bytes...]}
+  std::map<std::string, std::shared_ptr<ak::ForthInputBuffer>> inputs;
+  std::vector<std::string> innames;
+  if (st.HasMember("inputs")) {
+    for (auto& m : st["inputs"].GetObject()) {
+      int64_t n = (int64_t)m.value.Size();
+      std::shared_ptr<void> ptr(new uint8_t[(size_t)(n == 0 ? 1 : n)], std::default_delete<uint8_t[]>());
+      for (int64_t i = 0; i < n; i++) reinterpret_cast<uint8_t*>(ptr.get())[i] = (uint8_t)m.value[(rj::SizeType)i].GetInt64();
+      inputs[m.name.GetString()] = std::make_shared<ak::ForthInputBuffer>(ptr, 0, n);
+      innames.push_back(m.name.GetString());
+    }
+  }
+  result += ",\"decompiled\":" + jstr(vm->decompiled());
+  result += ",\"steps\":[";
+  bool first = true;
+  // schedule: sequence of "run" | "begin" | "step" | "resume" | "call:<word>" | "reset"
+  for (auto& a : need(st, "schedule").GetArray()) {
+    std::string act = a.GetString();
+    std::string r = "{\"act\":" + jstr(act);
+    try {
+      ak::util::ForthError err = ak::util::ForthError::none;
+      if (act == "run") err = vm->run(inputs);
+      else if (act == "begin") vm->begin(inputs);
+      else if (act == "step") err = vm->step();
+      else if (act == "resume") err = vm->resume();
+      else if (act == "reset") vm->reset();
+      else if (act.compare(0, 5, "call:") == 0) err = vm->call(act.substr(5));
+      else throw HarnessError("forth act " + act);
+      r += ",\"err\":" + jstr(fortherr(err)) + "," + forth_state(*vm, innames) + "}";
+    }
+    catch (HarnessError& e) { r += ",\"harness\":" + jstr(e.what()) + "}"; }
+    catch (std::invalid_argument& e) { r += ",\"exc\":\"ValueError\",\"msg\":" + jstr(first_line(e.what())) + "}"; }
+    catch (std::runtime_error& e) { r += ",\"exc\":\"RuntimeError\",\"msg\":" + jstr(first_line(e.what())) + "}"; }
+    catch (std::exception& e) { r += ",\"exc\":\"Exception\",\"msg\":" + jstr(first_line(e.what())) + "}"; }
+    result += (first ? "" : ",") + r; first = false;
+  }
+  return result + "]}";
+}
+
+// ------------------------------------------------------------------ dispatch
+bool other_ops(const std::string& op, const JV& st, Session& S, std::string& out) {
+  try {
+    if (op == "builder_run") { out = builder_run(st); return true; }
+    if (op == "json_parse") { out = json_parse(st, S); return true; }
+    if (op == "json_write") { out = json_write(st, S); return true; }
+    if (op == "forth_run") {
+      if (geti(st, "bits", 32) == 64) out = forth_run_T<int64_t, int32_t>(st);
+      else out = forth_run_T<int32_t, int32_t>(st);
+      return true;
+    }
+  }
+  CATCH_ALL(out)
+  if (!out.empty()) return true;
+  return false;
+}
